@@ -213,5 +213,7 @@ psf_fclose (SF_PRIVATE *psf)
 }
 
 int	psf_file_valid (SF_PRIVATE *psf)	{ return psf->file.filedes >= 0 ; }
+void	psf_init_files (SF_PRIVATE *psf)	{ psf->file.filedes = -1 ; psf->rsrc.filedes = -1 ; psf->file.savedes = -1 ; }
+void	psf_set_file (SF_PRIVATE *psf, int fd)	{ psf->file.filedes = fd ; }
 int	psf_close_rsrc (SF_PRIVATE *psf)	{ (void) psf ; return 0 ; }
 void	psf_use_rsrc (SF_PRIVATE *psf, int on_off)	{ (void) psf ; (void) on_off ; }
